@@ -267,13 +267,23 @@ def one_path_per_inode(view):
 def run_sequences(ctx, res: Result, seqs, label):
     """seqs: iterable of {"recursive", "start": tree, "steps": [{"tree": tree|None, "fault": [pos, errno]|None}]}"""
     from watchdog.observers.api import EventQueue, ObservedWatch
-    from watchdog.observers.polling import PollingEmitter
+    from watchdog.events import FileSystemEventHandler
+    from watchdog.observers.polling import PollingEmitter, PollingObserverVFS
     fs = FaultFS()
     lines, impls, metas = [], [], []
     for seq in seqs:
         rec = seq["recursive"]
-        q = EventQueue()
-        em = PollingEmitter(q, ObservedWatch(ROOT, recursive=rec), timeout=0, stat=fs.stat, listdir=fs.listdir)
+        if seq.get("via") == "PollingObserverVFS":
+            # the public route: the observer builds the emitter from its stat/listdir (never started: no thread)
+            obs = PollingObserverVFS(fs.stat, fs.listdir, polling_interval=0)
+            obs.schedule(FileSystemEventHandler(), ROOT, recursive=rec)
+            (em,) = tuple(obs.emitters)
+            q = obs.event_queue
+            res.hist("emitter_built_by", "PollingObserverVFS.schedule")
+        else:
+            q = EventQueue()
+            em = PollingEmitter(q, ObservedWatch(ROOT, recursive=rec), timeout=0, stat=fs.stat, listdir=fs.listdir)
+            res.hist("emitter_built_by", "PollingEmitter(...) directly")
         fs.set(seq["start"], None)
         try:
             em.on_thread_start()
@@ -290,7 +300,17 @@ def run_sequences(ctx, res: Result, seqs, label):
             tree, fault = step["tree"], step.get("fault")
             fault = tuple(fault) if fault else None
             fs.set(tree, fault)
-            em.queue_events(0)
+            try:
+                em.queue_events(0)
+            except Exception as ex:      # nothing may escape a poll
+                res.evaluations += 1
+                res.failures.append(Failure(what=f"queue_events raised {type(ex).__name__}: {ex}",
+                                            case={"recursive": rec, "start": seq["start"], "steps": seq["steps"][:si + 1], "via": seq.get("via")},
+                                            signature={"law": "poll_raises", "exception": type(ex).__name__, "recursive": rec},
+                                            observed=repr(ex), expected="events"))
+                impl.append(["RAISED", type(ex).__name__])
+                wsteps.append([tree_wire(tree), fault_wire(list(fs.calls), fault)])
+                break
             evs = []
             while not q.empty():
                 e, w = q.get_nowait()
@@ -299,7 +319,7 @@ def run_sequences(ctx, res: Result, seqs, label):
             call = calls[fault[0]] if fault and fault[0] < len(calls) else None
             now_stopped = not em.should_keep_running()
             res.evaluations += 1
-            case = {"recursive": rec, "start": seq["start"], "steps": seq["steps"][:si + 1], "failing_step": si}
+            case = {"recursive": rec, "start": seq["start"], "steps": seq["steps"][:si + 1], "failing_step": si, "via": seq.get("via")}
             sig_base = {"recursive": rec, "fault_call": call[0] if call else None, "errno": fault[1] if call else None}
             # --- canonical form for the correspondence: blocks in source order, sorted inside a block
             ks = [KINDS.index(k) for k, _, _ in evs]
@@ -413,7 +433,8 @@ def rand_sequence(rng, with_faults):
     unique = rng.random() < 0.85
     t, pool = rand_state_tree(rng, unique)
     t["st"][2] = True
-    seq = {"recursive": rng.random() < 0.7, "start": copy.deepcopy(t), "steps": []}
+    seq = {"recursive": rng.random() < 0.7, "start": copy.deepcopy(t), "steps": [],
+           "via": "PollingObserverVFS" if rng.random() < 0.3 else "PollingEmitter"}
     for i in range(rng.randint(2, 5)):
         r = rng.random()
         if r < 0.15:
@@ -486,7 +507,7 @@ def run(ctx) -> Result:
     for c in ctx.corpus():
         c = c.get("case", c)
         if "steps" in c:
-            seqs.insert(0, {"recursive": c["recursive"], "start": c["start"], "steps": c["steps"]})
+            seqs.insert(0, {"recursive": c["recursive"], "start": c["start"], "steps": c["steps"], "via": c.get("via")})
     run_sequences(ctx, res, seqs, "corpus")
     rng = ctx.rng("seqs")
     nseq = 2000 if not ctx.thorough else 8000
@@ -512,6 +533,7 @@ def run(ctx) -> Result:
                          "(names {a,b}, inodes {1,2,3} duplicates allowed, kinds, mtime in {0,1}), recursive")
         res.notes.append("a fault at every stat/listdir call position x 5 errnos of every generated walk; x 3 stated errnos of the polls of "
                          f"{npairs} state pairs")
+        res.exhaustive = True
     res.notes.append("EACCES on the root's own listdir raises out of the constructor and is handled as 'root gone' (DirDeleted(root) + stop); "
                      "errnos outside the stated set (EIO) on any listdir escalate the same way, EINVAL is tolerated like ENOENT: "
                      "correspondence only, no oracle clause")
@@ -528,7 +550,8 @@ def replay(ctx, obj) -> int:
         print(" start:", case["start"])
         for s in case["steps"]:
             print(" step :", s)
-        run_sequences(ctx, res, [{"recursive": case["recursive"], "start": case["start"], "steps": case["steps"]}], "replay")
+        run_sequences(ctx, res, [{"recursive": case["recursive"], "start": case["start"], "steps": case["steps"],
+                                  "via": case.get("via")}], "replay")
     else:
         print("replay walk:", case)
         fs = FaultFS()
@@ -548,6 +571,7 @@ def replay(ctx, obj) -> int:
                   errnos=[only[1]] if only else list(ERRNOS))
         if only:
             res.failures = [f for f in res.failures if f.case.get("fault") == list(only)]
+            res.mismatches = [m for m in res.mismatches if m.case.get("fault") == list(only)]
     for f in res.failures:
         print("FAIL:", f.what, "\n  observed", f.observed, "\n  expected", f.expected)
     for m in res.mismatches:
